@@ -170,10 +170,14 @@ def tmpl(name, args):
         return ("bin", "mul", X, ("bin", "mul", Y, ("lit", 0.7)))
     if name == "rpow":
         return ("bin", "pow", ("lit", -2), ("bin", "mod", X, ("lit", 3)))
+    if name == "mulm1":   # two definitions that differ only in literals whose Python hashes coincide: hash(-1) == hash(-2)
+        return ("bin", "mul", X, ("lit", -1))
+    if name == "mulm2":
+        return ("bin", "mul", X, ("lit", -2))
     raise ValueError(name)
 
 
-UNARY = ("dec", "mul2", "inc", "neg", "dbl", "pick", "abs", "round1", "lt", "eqx", "floor", "rpow", "abs2", "pair1", "cplx", "kw2", "unit", "flaky", "litneg", "bigdiv")
+UNARY = ("dec", "mul2", "inc", "neg", "dbl", "pick", "abs", "round1", "lt", "eqx", "floor", "rpow", "abs2", "pair1", "cplx", "kw2", "unit", "flaky", "litneg", "bigdiv", "mulm1", "mulm2")
 BINARY_SYM = ("add", "mul")
 BINARY_ASYM = ("sub", "addr", "mulr", "roundr")
 
